@@ -77,8 +77,11 @@ fn strategy(ctx: &Ctx) -> BoxedStrategy<Case> {
                 3 => (0u8..3, any::<u16>()).prop_map(|(damage, sel)| Cmd::RepairIndex { damage, sel }),
                 1 => any::<u16>().prop_map(|sel| Cmd::Forget { sel }),
                 5 => prune_cfg().prop_map(|mut p| {
-                    // the documented-unsafe combination is excluded
-                    p.early_delete_index = false;
+                    // the documented-unsafe combination (with instant-delete) is excluded; without
+                    // instant-delete the option is documented to have no effect
+                    if p.instant_delete {
+                        p.early_delete_index = false;
+                    }
                     Cmd::Prune(p)
                 }),
                 1 => (1i32..6, any::<bool>()).prop_map(|(compression, extra_verify)| Cmd::ApplyConfig { compression, extra_verify }),
@@ -91,7 +94,9 @@ fn strategy(ctx: &Ctx) -> BoxedStrategy<Case> {
                 prop::collection::vec(
                     hop(p, false).prop_map(|mut o| {
                         if let HOp::Prune(p) = &mut o {
-                            p.early_delete_index = false;
+                            if p.instant_delete {
+                                p.early_delete_index = false;
+                            }
                         }
                         o
                     }),
